@@ -448,6 +448,8 @@ def g_make_contr(rng, cfg, keep=None):
 
 def g_new_mole(rng, cfg):
     syms = rng.sample(["H", "He", "Li", "C", "O", "Cl"], rng.randint(1, 3))
+    if rng.random() < 0.25:  # pyscf allows labelled atoms (H1, O@2) with their own entry in _basis
+        syms = [s_ + rng.choice(["1", "2", "@2", "9"]) for s_ in syms]
     basis = {}
     for s in syms:
         shells = []
